@@ -5,7 +5,7 @@ from __future__ import annotations
 import random
 from typing import Any
 
-KEYS = ["a", "b", "c", "x", "y", "a.b", "x.y.z", "k_1", "type", "name"]
+KEYS = ["a", "b", "c", "x", "y", "a.b", "x.y.z", "k_1", "type", "name", "a\\.b"]
 SCALARS = [0, 1, 2, -5, 127, 128, True, False, None, "", "s", "t.u", "asyncio", [1, 2], [], [{"q": 1}], 1.5,
            # values that are not mappings although dict() would accept them: a list of pairs, of two-character strings,
            # of two-key mappings
